@@ -663,7 +663,9 @@ fn run_unit(tier: &str, unit: usize, out: &mut Out) {
         }).collect()
     } else if unit == n_framing() + n_rec() + 1 {
         let mut v = Vec::new();
-        for m in MODES {
+        // (also an async mode whose message capacity is larger than the partial output, so that
+        // the buffer of the refused record is one the pool would take back)
+        for m in MODES.into_iter().chain([ModeK::Async(1, 64, 0), ModeK::Async(2, 4096, 0)]) {
             for crlf in [false, true] {
                 v.push(run_isolated(Duration::from_secs(60), move || failing_format(m, crlf, false)));
                 // (the line ending is a setting of the file writer; stdout always gets LF)
